@@ -66,7 +66,8 @@ RECURSIVE PrecRunAt(_, _, _, _)
 PrecRunAt(reads, f, i, s) ==
   IF s.done \/ i + 1 > Len(reads) THEN s
   ELSE PrecRunAt(reads, f, i + 2,
-                 PrecStep(s, Elapsed(FromInt(reads[i]), FromInt(reads[i + 1]), f)))
+                 PrecStep(s, IF reads[i + 1] <= reads[i] THEN Zero   \* no tick in between
+                             ELSE Elapsed(FromInt(reads[i]), FromInt(reads[i + 1]), f)))
 
 PrecRun(reads, f) == PrecRunAt(reads, f, 1, PrecInit)
 =============================================================================
